@@ -59,6 +59,15 @@ mod helpers {
     use std::fmt;
     use yaserde::{YaDeserialize, YaSerialize};
 
+    /// Stands in for the response of an operation without an output message: nothing is parsed.
+    pub(super) struct NoResponse;
+
+    impl YaDeserialize for NoResponse {
+        fn deserialize<R: std::io::Read>(_reader: &mut yaserde::de::Deserializer<R>) -> Result<Self, String> {
+            Ok(NoResponse)
+        }
+    }
+
     pub(super) async fn send_soap_request<YI, YO, U, P>(
         url: &str,
         credentials: Option<(U, P)>,
